@@ -64,14 +64,19 @@ class Exec(Engine):
         if recv is not None:
             binds['self'] = recv
         pos = list(n.args)
+        if c.varargs:
+            pos = [a for a in pos if not isinstance(a, ast.Starred)][:len(names)]
+            n = ast.Call(func=n.func, args=pos, keywords=[k for k in n.keywords if k.arg is not None])
         if any(isinstance(a, ast.Starred) for a in pos) or any(k.arg is None for k in n.keywords):
             raise Unsupported('star-args at a contract call')
         for nm, a in zip(names, pos):
             binds[nm] = ('node', a)
-        if len(pos) > len(names):
+        if len(pos) > len(names) and not c.varargs:
             raise Unsupported(f'too many positional args for {c.key}')
         for k in n.keywords:
             if k.arg not in c.params:
+                if c.varargs:
+                    continue
                 raise Unsupported(f'unknown keyword {k.arg} for {c.key}')
             binds[k.arg] = ('node', k.value)
         out = {}
@@ -104,6 +109,10 @@ class Exec(Engine):
     # ------------------------------------------------------------------ ANF
     def is_effectful_call(self, st: State, n: ast.Call) -> bool:
         f = n.func
+        if isinstance(f, ast.Name) and f.id == 'Thread':
+            return True
+        if isinstance(f, ast.Attribute) and isinstance(f.value, ast.Name) and st.has(f.value.id) and st.get(f.value.id).t.k == 'thread':
+            return True
         if isinstance(f, ast.Name):
             if st.has(f.id) and st.get(f.id).t.k == 'closure':
                 return True
@@ -733,6 +742,24 @@ class Exec(Engine):
     def exec_call(self, n: ast.Call, st: State, want_value: bool):
         """-> [Outcome]; a normal outcome carries the result value in .val"""
         f = n.func
+        # threading.Thread(target=<closure>): trusted model -- start() runs the closure to completion in another
+        # thread (an exception there ends that thread only), join() waits for it.
+        if isinstance(f, ast.Name) and f.id == 'Thread' and len(n.keywords) == 1 and n.keywords[0].arg == 'target' \
+                and isinstance(n.keywords[0].value, ast.Name) and st.has(n.keywords[0].value.id) \
+                and st.get(n.keywords[0].value.id).t.k == 'closure':
+            self.trusted_uses['trusted:threading.Thread(target=closure)'] = self.trusted_uses.get('trusted:threading.Thread(target=closure)', 0) + 1
+            return [Outcome('next', st, SV(T('thread'), st.get(n.keywords[0].value.id).z))]
+        if isinstance(f, ast.Attribute) and isinstance(f.value, ast.Name) and st.has(f.value.id) and st.get(f.value.id).t.k == 'thread':
+            if f.attr == 'join':
+                return [Outcome('next', st, SV(NONE, None))]
+            if f.attr == 'start':
+                fn = st.get(f.value.id).z
+                self.handler_stack.append(['BaseException'])
+                try:
+                    outs = self.inline_closure(fn, ast.Call(func=ast.Name(id=fn.name, ctx=ast.Load()), args=[], keywords=[]), st)
+                finally:
+                    self.handler_stack.pop()
+                return [Outcome('next', o.st, SV(NONE, None)) for o in outs]
         # closures: inline
         if isinstance(f, ast.Name) and st.has(f.id) and st.get(f.id).t.k == 'closure':
             return self.inline_closure(st.get(f.id).z, n, st)
@@ -797,6 +824,13 @@ class Exec(Engine):
         res = SV(NONE, None)
         new = None
         ctx = self.ctx
+        if t.k == 'emptycoll' and m in ('add', 'append') and recv.t.name in ('set', 'list'):
+            # untyped empty literal: its element type is fixed by the first element added
+            x0 = Evaluator(self, st.fork()).ev(n.args[0])
+            if x0.t.k == 'u' and x0.t.name == 'Inst' and False:
+                pass
+            t = T(recv.t.name, (x0.t,))
+            recv = SV(t, ctx.empty_set(x0.t))
         if t.k in ('set', 'list'):
             et = t.args[0]
             if m in ('add', 'append'):
@@ -1073,6 +1107,58 @@ class Exec(Engine):
             for e in t.elts:
                 self._lvalue_root(e, names, paths, st)
 
+    def discover_writes(self, run_body, st: State):
+        """Write set of a loop body, found by executing it once (trial mode: nothing is checked) from a fully
+        havocked copy of the state and diffing: every local and heap location whose value object changed on
+        some path.  More robust than a syntactic scan: callee frames, aliases and closures are followed for real."""
+        s0 = st.fork()
+        for f in s0.frames:
+            for nm, v in list(f.items()):
+                if isinstance(v, SV) and v.t.k not in ('closure', 'obj', 'emptycoll', 'none', 'lambda', 'thread', 'enumcls', 'exccls') \
+                        and getattr(v, 'origin', None) is None and not nm.startswith('__aliaskey'):
+                    try:
+                        f[nm] = SV(v.t, self.ctx.fresh(v.t, 'hv_' + nm))
+                    except TypeError:
+                        pass
+        for p, v in list(s0.heap.items()):
+            if v.t.k == 'obj':
+                continue
+            s0.heap[p] = SV(v.t, self.ctx.fresh_lifted(v.t.args[0], v.t.args[1], p) if v.t.k == 'lift' else self.ctx.fresh(v.t, 'hv_' + p))
+        snap_frames = [dict(f) for f in s0.frames]
+        snap_heap = dict(s0.heap)
+        self.trial += 1
+        saved_sites = dict(getattr(self, '_sites', {}))
+        try:
+            outs = run_body(s0)
+        finally:
+            self.trial -= 1
+            self._sites = saved_sites
+        names, paths = set(), set()
+        for o in outs:
+            for fi, f in enumerate(o.st.frames[:len(snap_frames)]):
+                for nm, v in f.items():
+                    old = snap_frames[fi].get(nm)
+                    if old is None or (old is not v and not self.same_repr(old, v)):
+                        names.add(nm)
+            for p, v in o.st.heap.items():
+                old = snap_heap.get(p)
+                if old is None:
+                    old = o.st.old.get(p)      # lazily created record field: its entry value
+                if old is None or (old is not v and not self.same_repr(old, v)):
+                    paths.add(p)
+        return names, paths
+
+    def same_repr(self, a: SV, b: SV):
+        def eqz(x, y):
+            if isinstance(x, dict) and isinstance(y, dict):
+                return x.keys() == y.keys() and all(eqz(x[k], y[k]) for k in x)
+            if isinstance(x, tuple) and isinstance(y, tuple):
+                return len(x) == len(y) and all(eqz(p, q) for p, q in zip(x, y))
+            if isinstance(x, z3.ExprRef) and isinstance(y, z3.ExprRef):
+                return z3.eq(x, y)
+            return x is y
+        return a.t == b.t and eqz(a.z, b.z)
+
     def havoc_loop(self, st: State, names, paths):
         for nm in names:
             if st.has(nm):
@@ -1152,7 +1238,7 @@ class Exec(Engine):
         probe = st.fork()
         for k, v in bind_fn(ctx.fresh(dom_t, 'probe_x')).items():
             probe.set(k, v)
-        names, paths = self.modified_in(s.body, probe)
+        names, paths = self.discover_writes(lambda s0: self.exec_block(s.body, s0), probe)
         names -= {n.id for n in ast.walk(s.target) if isinstance(n, ast.Name)}
         pool = self.candidate_pool()
         line = s.lineno
@@ -1259,7 +1345,14 @@ class Exec(Engine):
             raise Unsupported('while/else')
         loop_id = self.loop_id(s, st)
         ln = loop_id.split('#loop')[1]
-        names, paths = self.modified_in(s.body, st)
+
+        def _once(s0):
+            ev = Evaluator(self, s0)
+            c0 = self.truth(ev.ev(s.test))
+            self.settle(s0, ev, s.lineno)
+            s0.assume(c0)
+            return self.exec_block(s.body, s0)
+        names, paths = self.discover_writes(_once, st)
         # the loop test may contain pure calls only
         pool = self.candidate_pool()
         line = s.lineno
